@@ -51,8 +51,12 @@ def gen_raw(rng, d, sub=False):
     r = rng.random()
     if sub and rng.random() < 0.1:
         # a ratio duration that differs from d by less than the 10-digit resolution (exact ratios differ, beat counts do not)
-        n = t * 1000 + rng.choice([1, -1, 7, -33, 250, -400, 0])
+        n = t * 1000 + rng.choice([1, -1, 7, -33, 250, -400, 0, 500, -500, 1500])
         # what takes part in the comparison is the beat count it REPORTS: the ratio rounded to 10 digits (= t ticks)
+        if n % 1000 == 500:
+            # exactly half a tick: a duration of either kind stands for the NUMBER it was given (a double), so the ratio
+            # duration must report what the direct duration and the plain float of the same value report
+            return ["q", round(round(float(Fraction(n, TICK * 1000)), 10) * TICK), TICK], ["raw", "rdur", n, TICK * 1000]
         return ["q", rhe(Fraction(n, 1000)), TICK], ["raw", "rdur", n, TICK * 1000]
     if r < 0.3:
         o = gen_dur(rng)
